@@ -240,6 +240,30 @@ def parOp (j : Json) : Except String Res := do
   let agree := (impl.getObjVal? "agree").toOption == some (Json.bool true)
   pure { model := impl, preds := [("same_answer_when_called_concurrently", agree)], nontrivial := true }
 
+/-- Several webfinger lookups at once: every request is the webfinger query of an account looked
+    up at the host the connection arrived at, with that host in its Host header. -/
+def wfParOp (j : Json) : Except String Res := do
+  let impl := (j.getObjVal? "impl").toOption.getD Json.null
+  let accept ← str j "accept"
+  let queries := (j.getObjVal? "queries").toOption.getD Json.null
+  let reqs : List (String × Str) := match impl.getObjVal? "requests" with
+    | .ok (Json.arr a) => a.toList.filterMap fun p => match p with
+      | Json.arr q => match q[0]?, q[1]? with
+        | some (Json.str h), some (Json.str s) => some (h, s.toList)
+        | _, _ => none
+      | _ => none
+    | _ => []
+  let own := reqs.all fun (host, raw) =>
+    match queries.getObjVal? host with
+    | .ok (Json.arr qs) => qs.toList.any fun q => match q with
+      | Json.str q => raw == Jtp.request ("/.well-known/webfinger?".toList ++ q.toList) host.toList accept
+      | _ => false
+    | _ => false
+  let canary := ((j.getObjVal? "canaryhits").toOption.bind (·.getNat?.toOption)).getD 0
+  pure { model := impl,
+         preds := [("each_request_is_the_query_of_its_own_host", own), ("no_plaintext_connection", canary == 0)],
+         nontrivial := reqs.length ≥ 2 }
+
 /-- `client.ResolveWebfinger`: the request it issues and how it reads the JRD answer. -/
 def webfingerOp (j : Json) : Except String Res := do
   let impl := (j.getObjVal? "impl").toOption.getD Json.null
